@@ -16,7 +16,7 @@ LEVEL = "proof"
 LEVEL_TEXT = ("Lean 4 theorems (exact arithmetic) over the transcription of the accessors: for Bin the number of edges is one more "
               "than the number of bins, centres and entries have one element per bin, every centre lies strictly between its "
               "edges, edges are strictly increasing, and the bin the views report for a value is the bin `fill` routes it to "
-              "(views and fill describe the same partition). Tied to /repo by evaluating num_bins / bin_edges / bin_centers / "
+              "(views and fill describe the same partition); the corresponding statements for SparselyBin (edges, entries, routing inside the 64-bit index range), CentrallyBin (fill = index(greater=True), lower/upper lookups differ only on midpoints) and IrregularlyBin (fill = _lower_index). Tied to /repo by evaluating num_bins / bin_edges / bin_centers / "
               "bin_entries (full range, sub-ranges on and between edges, xvalues) of Bin, SparselyBin, CentrallyBin and "
               "IrregularlyBin on model and implementation for dyadic configurations, plus an implementation-level oracle for mutual "
               "consistency, the 2-D grids and x/y projections against the filled data, and Categorize labels/entries/mpv.")
@@ -217,7 +217,70 @@ class C13Exec(execs.PyExec):
                 if not (e[i] <= x < e[i + 1]):
                     msgs.append("Bin: fill puts x=%r into bin %d whose edges are [%r, %r)" % (x, i, e[i], e[i + 1]))
             self.queries.append(("viewat", k, x, before))
+        self.other_views(h, k, spec, p)
         self.grid_checks(p)
+
+    def other_views(self, h, k, spec, p):
+        """the remaining read views — range(), n_bins, mpv, the summary properties of SparselyBin, center()/value()/
+        neighbors() of CentrallyBin — describe the same partition as bin_edges / bin_entries / fill"""
+        msgs = self.msgs
+        try:
+            edges_all = arr(h.bin_edges()) if k != "CentrallyBin" else None
+            ent_all = arr(h.bin_entries())
+            cen_all = arr(h.bin_centers())
+            if h.n_bins != len(ent_all) and not (k == "SparselyBin"):
+                msgs.append("%s: n_bins is %r but bin_entries() has %d entries" % (k, h.n_bins, len(ent_all)))
+            if len(ent_all) and sum(ent_all) > 0:
+                want = cen_all[max(range(len(ent_all)), key=lambda i: (ent_all[i], -i))]
+                if h.mpv != want:
+                    msgs.append("%s: mpv is %r, the fullest bin (lowest index on ties) is centred at %r" % (k, h.mpv, want))
+            if k == "Bin":
+                for i in range(len(ent_all)):
+                    lo, hi = h.range(i)
+                    if (lo, hi) != (edges_all[i], edges_all[i + 1]):
+                        msgs.append("Bin: range(%d) is %r but bin_edges gives (%r, %r)" % (i, (lo, hi), edges_all[i], edges_all[i + 1]))
+                        break
+                if h.bin_width() != edges_all[1] - edges_all[0]:
+                    msgs.append("Bin: bin_width() %r differs from the distance of the first two edges %r" % (h.bin_width(), edges_all[1] - edges_all[0]))
+            elif k == "SparselyBin":
+                keys = sorted(h.bins)
+                if keys:
+                    if (h.numFilled, h.minBin, h.maxBin, h.num) != (len(keys), keys[0], keys[-1], keys[-1] - keys[0] + 1):
+                        msgs.append("SparselyBin: numFilled/minBin/maxBin/num are %r for filled bins %r" % ((h.numFilled, h.minBin, h.maxBin, h.num), keys))
+                    if (h.low, h.high) != (h.range(keys[0])[0], h.range(keys[-1])[1]):
+                        msgs.append("SparselyBin: low/high %r differ from the outer edges of the filled range %r" % ((h.low, h.high), (h.range(keys[0])[0], h.range(keys[-1])[1])))
+                    if (edges_all[0], edges_all[-1]) != (h.low, h.high):
+                        msgs.append("SparselyBin: bin_edges spans %r, low/high are %r" % ((edges_all[0], edges_all[-1]), (h.low, h.high)))
+                    for i in keys:
+                        if h.at(i) is not h.bins[i]:
+                            msgs.append("SparselyBin: at(%d) is not the bin with that index" % i)
+                            break
+                    if h.at(keys[-1] + 1) is not None:
+                        msgs.append("SparselyBin: at() of an unfilled index is not None")
+                for x in p["xvals"]:
+                    i = h.bin(x)
+                    lo, hi = h.range(i)
+                    if not (lo <= x < hi):
+                        msgs.append("SparselyBin: bin(%r) = %d but range(%d) = [%r, %r)" % (x, i, i, lo, hi))
+                        break
+            elif k == "CentrallyBin":
+                cs = list(h.centers)
+                if cs != sorted(cs) or cs != list(cen_all):
+                    msgs.append("CentrallyBin: centers %r, bin_centers() %r" % (cs, list(cen_all)))
+                for x in p["xvals"]:
+                    c = h.center(x)
+                    lo, hi = h.range(c)
+                    if not (lo <= x < hi) and not (x == hi):   # a value on a midpoint belongs to the upper bin; range() of the lower bin ends there
+                        msgs.append("CentrallyBin: center(%r) = %r but range(%r) = [%r, %r)" % (x, c, c, lo, hi))
+                        break
+                    # (CentrallyBin.value(x) is shadowed by the instance attribute `value`, the bin template: not a view)
+                    below, above = h.neighbors(c)
+                    j = cs.index(c)
+                    if (below, above) != (cs[j - 1] if j > 0 else None, cs[j + 1] if j + 1 < len(cs) else None):
+                        msgs.append("CentrallyBin: neighbors(%r) = %r in centres %r" % (c, (below, above), cs))
+                        break
+        except Exception as e:  # noqa: BLE001
+            msgs.append("%s: a read view raised %s: %s" % (k, type(e).__name__, str(e)[:200]))
 
     def generic_grid(self, rng, data, qx, qy):
         from histogrammar.plot.hist_numpy import get_2dgrid
